@@ -188,6 +188,37 @@ func init() {
 		return v, true
 	}
 
+	// block header / block time: properties of the block, one constant per run
+	natives[pkgSDK+"(Context).BlockHeader"] = func(x *Exec, st *State, fr *Frame, at ssa.Instruction, a []Val) (Val, bool) {
+		call, ok := at.(*ssa.Call)
+		if !ok {
+			return Val{}, false
+		}
+		ht := call.Type()
+		si := x.S.StructInfo(ht)
+		if si == nil {
+			return Val{}, false
+		}
+		name := "blockheader"
+		x.D.DeclareFun(name, nil, si.sort)
+		v := Val{T: Term{name, si.sort}, Typ: ht}
+		if i := fieldIndex(si.typ, "Height"); i >= 0 {
+			x.D.DeclareFun("blockheight", nil, SInt)
+			st.assume(Eq(App(SInt, x.S.fieldSel(si.sort, si.typ, i), v.T), Term{"blockheight", SInt}))
+			st.assume(And(App(SBool, ">=", Term{"blockheight", SInt}, IntLit(0)), App(SBool, "<=", Term{"blockheight", SInt}, IntLitStr("9223372036854775807"))))
+		}
+		return v, true
+	}
+	natives[pkgSDK+"(Context).BlockTime"] = func(x *Exec, st *State, fr *Frame, at ssa.Instruction, a []Val) (Val, bool) {
+		call, ok := at.(*ssa.Call)
+		if !ok {
+			return Val{}, false
+		}
+		sort := x.S.SortOf(call.Type())
+		x.D.DeclareFun("blocktime", nil, sort)
+		return Val{T: Term{"blocktime", sort}, Typ: call.Type()}, true
+	}
+
 	// --- bytes / strings ---
 	natives["bytes.Equal"] = func(x *Exec, st *State, fr *Frame, at ssa.Instruction, a []Val) (Val, bool) {
 		return Val{T: Eq(x.bytesOf(st, a[0]), x.bytesOf(st, a[1])), Typ: types.Typ[types.Bool]}, true
